@@ -19,6 +19,22 @@ struct vb_thread; void vb_join(struct vb_thread *t);
 #define VB_THREAD_JOIN(t) vb_join(t)
 #define VB_GHOST_ObjectHeaderBase uint32_t gh_calc;     /* what calculateObjectSize() returns for this object */
 #define VB_GHOST_CompressedFile int64_t cg; int64_t cp; int cstate; _Bool copen; int cmode;   /* abstract std::fstream */
+/* C11, ownership of File's data members (spec/file_ownership.json): every statement of File.cpp that names a member carries
+ * a hook (VB_TOUCH read / VB_TOUCH_W may-write); the hook asserts that the running thread may touch the member now */
+#define VB_LOCKSET 1
+enum { VB_ROLE_APP = 1, VB_ROLE_U = 2, VB_ROLE_C = 4 };
+int vb_role;
+#define VB_RUN_U(f) ((f)->m_uncompressedFileThread.started && !(f)->m_uncompressedFileThread.joined)
+#define VB_RUN_C(f) ((f)->m_compressedFileThread.started && !(f)->m_compressedFileThread.joined)
+#define VB_OWN_sync(f, w) 1                                   /* an object of a class with its own mutex (lockset obligation) */
+#define VB_OWN_app(f, w) (vb_role == VB_ROLE_APP)             /* no worker ever touches it */
+#define VB_OWN_frozen(f, w) (!(w) || (vb_role == VB_ROLE_APP && !VB_RUN_U(f) && !VB_RUN_C(f)))   /* workers only read it */
+#define VB_OWN_frozen_u(f, w) ((w) ? (vb_role == VB_ROLE_APP && !VB_RUN_U(f)) : (vb_role != VB_ROLE_C))
+#define VB_OWN_frozen_c(f, w) ((w) ? (vb_role == VB_ROLE_APP && !VB_RUN_C(f)) : (vb_role != VB_ROLE_U))
+#define VB_OWN_worker_u(f, w) (VB_RUN_U(f) ? vb_role == VB_ROLE_U : vb_role == VB_ROLE_APP)
+#define VB_OWN_worker_c(f, w) (VB_RUN_C(f) ? vb_role == VB_ROLE_C : vb_role == VB_ROLE_APP)
+/*OWNERSHIP*/
+#define VB_TOUCH_File(f, m, how) __CPROVER_assert(VB_OWNER_File_##m(f, sizeof(how) == sizeof("written")), "C11/File/ownership/member-" #m "-is-" how "-only-by-the-thread-that-owns-it-at-that-time")
 #include "blf.h"
 int vb_exc; int vb_caught; uint64_t VB_J; int vb_list_overflow;
 struct ObjectHeaderBase *vb_nondet_obj(void) { struct ObjectHeaderBase *p; return p; }
@@ -84,13 +100,71 @@ def need(fns, *names):
     return out
 
 
+THREADS = {'m_uncompressedFileThread': 'U', 'm_compressedFileThread': 'C'}
+
+
+def ownership_table(info):
+    """member -> (rule, accessors): the weakest access rule under which the member is race free, DERIVED from the
+       extracted code: the hooks of every File function (classes.json: functions[].touches) are attributed to the
+       threads that can execute the function (call-graph closure from the thread entry functions / from the API
+       functions); CBMC then proves the part that needs the thread state (started/joined) at each access."""
+    fm = {fn: m for fn, m in info.meta['functions'].items() if m.get('owner') == 'File'}
+    te = info.meta.get('thread_entries', {}).get('File', {})
+    if set(te) != set(THREADS): raise core.Inconclusive('File: worker threads %s, expected %s (must-fire)' % (sorted(te), sorted(THREADS)))
+    hooked = [h.split('.', 1)[1] for h in info.meta.get('touch_hooks', []) if h.startswith('File.')]
+    if not hooked: raise core.Inconclusive('the extractor emitted no member-access hook for File (must-fire)')
+    def closure(roots):
+        seen = set(); todo = list(roots)
+        while todo:
+            f = todo.pop()
+            if f in seen or f not in fm: continue
+            seen.add(f); todo += [c for c in fm[f].get('calls', []) if c in fm]
+        return seen
+    entries = {e for es in te.values() for e in es}
+    called = {c for f, m in fm.items() for c in m.get('calls', []) if c in fm and c != f}
+    reach = {'APP': closure([f for f in fm if f not in entries and f not in called and fm[f].get('kind') != 'waitpred'])}
+    for t, es in te.items(): reach[THREADS[t]] = closure(es)
+    acc = {m: set() for m in hooked}
+    for role, fns in reach.items():
+        for f in fns:
+            for (cls, m, mode) in fm[f].get('touches') or []:
+                if cls == 'File': acc[m].add((role, mode))
+    members = {m['name']: m for m in info.classes['File']['members']}
+    table = {}
+    for m in hooked:
+        mt = members.get(m, {}).get('type') or {}
+        cls = info.classes.get(mt.get('name') or '', None)
+        workers = sorted({r for (r, mode) in acc[m] if r != 'APP'})
+        wwrites = sorted({r for (r, mode) in acc[m] if r != 'APP' and mode == 'w'})
+        if cls is not None and any((x['type'] or {}).get('name') == 'std::mutex' for x in cls['members']): rule = 'sync'
+        elif not workers: rule = 'app'
+        elif wwrites: rule = 'worker_' + wwrites[0].lower()       # a second worker touching it fails this rule: that is the race
+        elif len(workers) == 1: rule = 'frozen_' + workers[0].lower()
+        else: rule = 'frozen'
+        table[m] = (rule, sorted(acc[m]))
+    return table, reach
+
+
+def ownership(info):
+    table, reach = ownership_table(info)
+    return ''.join('#define VB_OWNER_File_%s(f, w) VB_OWN_%s(f, w)   /* touched by %s */\n' % (m, rule, ', '.join('%s:%s' % a for a in acc))
+                   for m, (rule, acc) in sorted(table.items()))
+
+
+ROLE = {'APP': '    vb_role = VB_ROLE_APP;\n',
+        'U': '    vb_role = VB_ROLE_U; __CPROVER_assume(VB_RUN_U(&f));   /* the decoding/encoding worker runs only between its start and its join */\n',
+        'C': '    vb_role = VB_ROLE_C; __CPROVER_assume(VB_RUN_C(&f));   /* the compression worker runs only between its start and its join */\n',
+        'APP_JOINED': '    vb_role = VB_ROLE_APP; __CPROVER_assume(!VB_RUN_U(&f) && !VB_RUN_C(&f));   /* call site in close(): after both joins (asserted there) */\n'}
+
+
 def all_jobs(info):
     fns = file_functions()
     jobs = []
+    pre = PRE.replace('/*OWNERSHIP*/', ownership(info))
 
-    def mk(name, funcs, body, ncanary, functions, loop=False, extra_pre='', labels=None, expect=()):
-        src = PRE + extra_pre + need(fns, *funcs)
-        src += 'void harness(void)\n{\n    struct File f; reset_ghost(&f);\n    __CPROVER_assume(STREAM_INV);\n' + body
+    def mk(name, funcs, body, ncanary, functions, loop=False, extra_pre='', labels=None, expect=(), role='APP'):
+        src = pre + extra_pre + need(fns, *funcs)
+        src += 'void harness(void)\n{\n    struct File f; reset_ghost(&f);\n    __CPROVER_assume(STREAM_INV);\n' + ROLE[role] + body
         src += '    __CPROVER_assert(0, "canary");\n}\n'
         jobs.append(core.Job('FILE_' + name, src, route='harness', flags=FLAGS, functions=functions, loop_contracts=loop,
                              canary_ids=['harness.assertion.%d' % ncanary], timeout=600, labels=labels or {}, expect_kinds=list(expect)))
@@ -114,7 +188,7 @@ def all_jobs(info):
     # remember the declared size the header stub produced: wrap ObjectHeaderBase_read's objectSize via a ghost
     extra = ''
     mk('uncompressedFile2ReadWriteQueue', ['File_uncompressedFile2ReadWriteQueue'], b, len(asr) + 1,
-       ['File::uncompressedFile2ReadWriteQueue'], extra_pre=extra,
+       ['File::uncompressedFile2ReadWriteQueue'], extra_pre=extra, role='U',
        labels={'re:deallocated dynamic object': 'C11/File/uncompressedFile2ReadWriteQueue/the-object-is-not-touched-after-it-was-handed-to-the-queue',
                're:^File_uncompressedFile2ReadWriteQueue\\.pointer_dereference': 'C11/File/uncompressedFile2ReadWriteQueue/the-object-is-not-touched-after-it-was-handed-to-the-queue'})
     # ------------------------------------------------------------------ readWriteQueue2UncompressedFile
@@ -128,7 +202,7 @@ def all_jobs(info):
         ('C10/File/readWriteQueue2UncompressedFile/no-exception', 'vb_exc == 0'),
     ]
     for l, c in asr: b += A(l, c)
-    mk('readWriteQueue2UncompressedFile', ['File_readWriteQueue2UncompressedFile'], b, len(asr) + 1, ['File::readWriteQueue2UncompressedFile'])
+    mk('readWriteQueue2UncompressedFile', ['File_readWriteQueue2UncompressedFile'], b, len(asr) + 1, ['File::readWriteQueue2UncompressedFile'], role='U')
     # ------------------------------------------------------------------ compressedFile2UncompressedFile
     b = '''    uint64_t cur0 = f.currentUncompressedFileSize; int64_t p0 = U.m_tellp;
     __CPROVER_assume(cur0 <= ((uint64_t)1 << 60));
@@ -142,7 +216,7 @@ def all_jobs(info):
         ('C08/File/compressedFile2UncompressedFile/the-stream-grows-by-exactly-the-declared-payload', 'g_writeLC_calls == 0 || U.m_tellp == p0 + (int64_t)g_lc_usize'),
     ]
     for l, c in asr: b += A(l, c)
-    mk('compressedFile2UncompressedFile', ['File_compressedFile2UncompressedFile'], b, len(asr) + 1, ['File::compressedFile2UncompressedFile'],
+    mk('compressedFile2UncompressedFile', ['File_compressedFile2UncompressedFile'], b, len(asr) + 1, ['File::compressedFile2UncompressedFile'], role='C',
        labels={'re:UncompressedFile::write\\(container\\) precondition': 'C10/File/compressedFile2UncompressedFile/an-appended-container-holds-exactly-the-bytes-it-declares-(no-read-past-its-buffer)'})
     # ------------------------------------------------------------------ uncompressedFile2CompressedFile
     b = '''    uint64_t cur0 = f.currentUncompressedFileSize; int64_t g0 = U.m_tellg; uint32_t dsz = U.m_defaultLogContainerSize; int lvl = f.compressionLevel;
@@ -158,7 +232,7 @@ def all_jobs(info):
         ('C12/File/uncompressedFile2CompressedFile/drops-consumed-data-once-per-container', 'vb_exc != 0 || g_drop_calls == 1'),
     ]
     for l, c in asr: b += A(l, c)
-    mk('uncompressedFile2CompressedFile', ['File_uncompressedFile2CompressedFile'], b, len(asr) + 1, ['File::uncompressedFile2CompressedFile'])
+    mk('uncompressedFile2CompressedFile', ['File_uncompressedFile2CompressedFile'], b, len(asr) + 1, ['File::uncompressedFile2CompressedFile'], role='C')
     # ------------------------------------------------------------------ worker loops (loop contracts)
     def worker(name, transfer, running, eos_expr, eos_label, stream_good, good_expr, good_pre):
         stub = '''unsigned g_transfers;
@@ -172,9 +246,9 @@ void %s(struct File *self)
 }
 #define LOOP_%s_1 \\
     __CPROVER_assigns(vb_exc, vb_caught, g_transfers, file->%s, __CPROVER_object_whole(file)) \\
-    __CPROVER_loop_invariant(vb_exc == 0 && g_eos_queue == 0 && g_eos_stream == 0) \\
+    __CPROVER_loop_invariant(vb_exc == 0 && g_eos_queue == 0 && g_eos_stream == 0 && %s(file)) \\
     __CPROVER_loop_invariant(!file->%s || (%s))     /* the worker keeps running only while its input stream is good: it stops in the iteration in which the stream ends */
-''' % (transfer, stream_good, name, running, running, good_expr)
+''' % (transfer, stream_good, name, running, 'VB_RUN_U' if 'uncompressedFileThread' in running else 'VB_RUN_C', running, good_expr)
         b = '    __CPROVER_assume(%s);\n    %s(&f);\n' % (good_pre, name)
         asr = [
             ('C10/File/%s/no-exception-escapes-the-worker' % name.replace('File_', ''), 'vb_exc == 0'),
@@ -182,7 +256,7 @@ void %s(struct File *self)
             (eos_label, eos_expr),
         ]
         for l, c in asr: b += A(l, c)
-        mk(name.replace('File_', ''), [name], b, len(asr) + 1, ['File::' + name.replace('File_', '')], loop=True, extra_pre=stub,
+        mk(name.replace('File_', ''), [name], b, len(asr) + 1, ['File::' + name.replace('File_', '')], loop=True, extra_pre=stub, role='U' if 'uncompressedFileThread' in running else 'C',
            labels={'re:loop invariant before entry': 'C10/File/%s/loop-invariant-on-entry' % name.replace('File_', ''),
                    're:loop invariant is preserved': 'C10/File/%s/loop-invariant-preserved-(no-exception-pending-and-the-worker-stops-when-its-input-ends)' % name.replace('File_', '')},
            expect=[r'loop invariant is preserved'])
@@ -206,9 +280,13 @@ void %s(struct File *self)
            'if (vb_nondet_int()) self->m_uncompressedFile.m_rdstate = IOS_eofbit | IOS_failbit;',
            'file->m_uncompressedFile.m_rdstate == 0', 'U.m_rdstate == 0')
     # ------------------------------------------------------------------ close (write branch): statistics
-    stubs = '''void File_readWriteQueue2UncompressedFile(struct File *self) { g_rp_q2u++; }
-void File_uncompressedFile2CompressedFile(struct File *self) { g_rp_u2c++; self->m_compressedFile.cp += 32; self->currentUncompressedFileSize += 32; }
+    stubs = '''#define CALLSITE __CPROVER_assert(!VB_RUN_U(self) && !VB_RUN_C(self), "C11/File/close/a-transfer-function-runs-on-the-application-thread-only-after-both-workers-were-joined")
+void File_readWriteQueue2UncompressedFile(struct File *self) { CALLSITE; g_rp_q2u++; }
+void File_uncompressedFile2CompressedFile(struct File *self) { CALLSITE; g_rp_u2c++; self->m_compressedFile.cp += 32; self->currentUncompressedFileSize += 32; }
 '''
+    # the same two functions executed by the application thread (from close(), after the joins): ownership hooks only
+    for fn in ('File_readWriteQueue2UncompressedFile', 'File_uncompressedFile2CompressedFile'):
+        mk(fn.replace('File_', '') + '_called_from_close', [fn], '    %s(&f);\n' % fn, 1, ['File::%s (called by close)' % fn.replace('File_', '')], role='APP_JOINED')
     b = '''    __CPROVER_assume(C.copen && (f.m_openMode & IOS_out) && !(f.m_openMode & IOS_in));
     __CPROVER_assume(f.m_uncompressedFileThread.started == 1 && f.m_uncompressedFileThread.joined == 0 && f.m_compressedFileThread.started == 1 && f.m_compressedFileThread.joined == 0);
     __CPROVER_assume(f.currentUncompressedFileSize <= ((uint64_t)1 << 60));
